@@ -106,6 +106,7 @@ let judge cs obs =
                      let sel = match spec_select table m norm with Some k -> List.nth idx (int_of_nat k) | None -> -1 in
                      if i <> b.idx then
                        (if i = sel then "ok" (* a higher-priority route also matches the built path: C01's rule, not an error *)
+                        else if trimmed then "bad value-trimmed-by-path-normalisation routed-to=" ^ string_of_int i
                         else "bad routed-to-another-route got=" ^ string_of_int i)
                      else if r.s_pat = None then "ok"
                      else if to_string ps = to_string exp_ps && to_string sps = to_string exp_ps && to_string who = string_of_int i then "ok"
